@@ -98,7 +98,7 @@ def run(rep, ctx):
                               r"mp::internal::SuffixValueCounter::.*", r"mp::BasicSuffix::VisitValues", r"mp::Suffix::VisitValues"],
                  var=[r"mp::internal::SUFFIX_KIND_MASK"], enum=[r"mp::suf::.*", r"mp::internal::.*"], repo=repo),
             dict(unit="src/sol.cc", fn=[r"mp::internal::WriteMessage"], repo=repo),
-            dict(unit=RU, closure=1, closure_roots=r"SOLReader2::gsufread$", fn=[r"mp::SOLReader2::(ReadSOLFile|gsufread|sufheadcheck)", r"mp::(Lget|decstring|Read)", r"mp::[a-z_0-9]+", r"mp::VecReader::ReadNext"],
+            dict(unit=RU, closure=1, closure_roots=r"SOLReader2::(gsufread|sufheadcheck)$", fn=[r"mp::SOLReader2::(ReadSOLFile|gsufread|sufheadcheck)", r"mp::(Lget|decstring|Read)", r"mp::[a-z_0-9]+", r"mp::VecReader::ReadNext"],
                  repo=repo)]
     F = Facts(export_many(jobs))
     rep.note_units([WU, "src/sol.cc", RU])
@@ -277,7 +277,7 @@ def run(rep, ctx):
              "reader-primal-count", short_loc(prim_t[0].get("l")), "the number of primals read is z[3]",
              "primals read: %s; %s" % (pi, [render(x) for x in idef]))
     # objno line
-    oa = [render(a) for a in p_obj[2]]
+    oa = [xrender(W, a) for a in p_obj[2]]
     t2.check(len(oa) == 2 and oa[0].replace(" ", "").endswith("objno()-1") and oa[1].endswith("status()"), "objno-args", short_loc(p_obj[0].get("l")),
              "objno line carries objno-1 and the solve code", str(oa))
     ro = [render(n) for n in R.walk() if n["k"] == "CXXMemberCallExpr" and n.get("callee", "").split("::")[-1] in ("OnObjno", "OnSolveCode") and in_text_path(R, n)]
@@ -302,14 +302,21 @@ def run(rep, ctx):
     # the reader's upper limit for kind: `kind > c` (or `c < kind`) leads to rejection; the header may be reached through a reference
     kmax = None
     hk = []
-    for n in SH.walk():
-        if n["k"] == "BinaryOperator" and n.get("op") in (">", "<"):
-            a_, b_ = kids(n)
-            if n["op"] == "<":
-                a_, b_ = b_, a_
-            if xrender(SH, a_, True).replace(" ", "").endswith("h.kind") and cv(b_) is not None:
-                hk.append(n)
-                kmax = cv(b_)
+    by_id5 = getattr(F, "_by_id", {})
+    sh_parts = [SH] + [g_ for g_ in {id(x): x for x in (by_id5.get(c_.get("calleeId")) for c_ in SH.walk() if c_["k"] in ("CallExpr", "CXXMemberCallExpr"))
+                                     if x is not None and x.cfg is not None and x is not SH}.values()]
+    for g_ in sh_parts:
+        for n in g_.walk():
+            if n["k"] == "BinaryOperator" and n.get("op") in (">", "<", ">=", "<="):
+                a_, b_ = kids(n)
+                op_ = n["op"]
+                if cv(a_) is not None and cv(b_) is None:
+                    a_, b_ = b_, a_
+                    op_ = {">": "<", "<": ">", ">=": "<=", "<=": ">="}[op_]
+                if xrender(g_, a_, True).replace(" ", "").endswith("h.kind") and cv(b_) not in (None, 0):
+                    # `kind > c` (rejected) and `kind <= c` (accepted) put the limit at c; `kind >= c` / `kind < c` at c - 1
+                    hk.append(n)
+                    kmax = cv(b_) if op_ in (">", "<=") else cv(b_) - 1
     t2.check(mval is not None and kmax is not None and 0 <= mval <= kmax, "suffix-kind-range", short_loc(mk[0].get("l")) if mk else "",
              "kind & %s stays within the reader's accepted range [0,%s]" % (mval, kmax), "mask %s vs reader maximum %s" % (mval, kmax))
     lg = [c for c in GS.walk() if c["k"] == "CallExpr" and c.get("callee") == "mp::Lget"]
